@@ -124,11 +124,11 @@ func (x *Executor) atCallObligationsKey(fr *Frame, st *State, reach string, key,
 		// expressions are written in the caller's package
 		pkg = fr.fn.Pkg.Pkg
 	}
-	env := &Env{x: x, u: u, vars: vars, bound: map[string]Val{}, st: st, old: x.entry, pkg: pkg, localsAfter: x.localsLookup(fr, st)}
+	env := &Env{x: x, u: u, vars: vars, bound: map[string]Val{}, st: st, old: x.entry, pkg: pkg, localsAfter: x.localsLookupAt(fr, st, x.curTokPos)}
 	// the enclosing contract's own parameter names are visible too; outer(x) names the caller's x
 	// even when the callee has a parameter of the same name
 	outer := map[string]Val{}
-	cur := x.localsLookup(fr, st)
+	cur := x.localsLookupAt(fr, st, x.curTokPos)
 	for i, n := range fr.con.Params {
 		if i < len(fr.params) {
 			// a parameter is a local variable: its value at the call is meant (old(x) gives the
